@@ -1,16 +1,9 @@
-(* C19 -- bounded binary64 statement, part 1 of 4 (computed): for the intervals
-   [0.0,1.0], [-1.0,1.0], [0.9,1.0], [0.1,0.7] (nearest doubles) and every n = 1..2000 the break points of the repaired
-   make_knots pass NpF.bp_ok. *)
-From Coq Require Import PrimFloat List Arith Bool.
+(* C19 -- bounded binary64 statement, chunk 1 of 16 (computed): for the intervals
+   FloatGridDefs.chunk 0 and every n = 1..2000 the break points of the repaired make_knots
+   pass NpF.bp_ok. *)
+From Coq Require Import QArith List Arith Bool.
 From Verif.lib Require Import NpCore NpF.
-Import ListNotations.
-Open Scope float_scope.
+From Verif.C19 Require Import FloatGridDefs.
 
-Definition grid1 : list (float * float) :=
-  [(0x0.0p+0, 0x1.0000000000000p+0);
-   ((-0x1.0000000000000p+0), 0x1.0000000000000p+0);
-   (0x1.ccccccccccccdp-1, 0x1.0000000000000p+0);
-   (0x1.999999999999ap-4, 0x1.6666666666666p-1)].
-
-Lemma grid1_ok : grid_check 2000 grid1 = true.
+Lemma grid1_ok : grid_check 2000 (map f_of_qq (chunk 0)) = true.
 Proof. vm_compute. reflexivity. Qed.
